@@ -568,8 +568,8 @@ func c09R5(p *core.Program, r *core.Report, sc *scanClosure) {
 	// table form: `verbs := map[rune]func(any) Snippet{'T': ID, 'v': Value}; wrap, isVerb := verbs[c]; switch { case isVerb: …
 	// wrap(x) …; case c == '%': …; default: panic }` - the verbs that take an argument are the table's keys, what a plain
 	// argument is wrapped with is the table's value for the verb
-	var tableWrap *types.Var           // the looked-up constructor
-	tableOf := map[int64]string{}      // verb -> constructor name
+	var tableWrap *types.Var      // the looked-up constructor
+	tableOf := map[int64]string{} // verb -> constructor name
 	if sw == nil {
 		var tableVar, okVar *types.Var
 		ast.Inspect(sc.f.Body, func(n ast.Node) bool {
